@@ -355,7 +355,29 @@ func generate() {
 
 var fileNames = []string{"a", "b", "c", "a#0", "a#1", "b#0", "-", "x=a", "l=b", "=a", "a=", "a#0#0"}
 
+// bigFiles: files well beyond one scanner buffer (> 8 KiB each) read through one Files, one of
+// them twice — clones of early results are held while the buffer is refilled many times and the
+// reader is Reset onto the next file.
+func bigFiles() {
+	mk := func(tag string, n int) []byte {
+		var b strings.Builder
+		for i := 0; i < n; i++ {
+			fmt.Fprintf(&b, "cfg%d: %s-value-%d\n", i%7, tag, i)
+			if i%5 == 0 {
+				fmt.Fprintf(&b, "cfg%d:\n", (i+3)%7)
+			}
+			fmt.Fprintf(&b, "Unit u%s%d better=higher\n", tag, i%9)
+			fmt.Fprintf(&b, "Benchmark%sName%d/sub=%d-8 %d %d.5 ns/op %d MB/s\n", tag, i, i, i+1, i, i)
+		}
+		return []byte(b.String())
+	}
+	fs := []fsEntry{{"a", mk("A", 120)}, {"b", mk("B", 150)}}
+	runFiles([]string{"a", "b", "a"}, false, false, fs, nil, "bigfiles")
+	runFiles([]string{"x=a", "-", "b"}, true, true, fs, mk("S", 100), "bigfiles")
+}
+
 func filesCorpus() {
+	bigFiles()
 	t1 := []byte("k1: v1\nUnit ns/op better=lower\nBenchmarkOne 1 1 ns/op\n")
 	t2 := []byte("k2: v2\nUnit ns/op better=higher\nBenchmarkTwo 1 2 ns/op\n")
 	t3 := []byte("BenchmarkThree 1 3 ns/op\n")
